@@ -314,6 +314,8 @@ fn gen_len(rng: &mut Rng, g: G) -> usize {
         0 => 0,
         1 => 1,
         2 if g.depth == 0 => rng.range(0, 300),
+        // collections of 2^k-1, 2^k, 2^k+1 elements (k = 8, 10, 12): one in 64 top-level collections
+        3 if g.depth == 0 && rng.chance(1, 8) => ((1usize << *rng.pick(&[8u32, 10, 12])) as i64 + rng.below(3) as i64 - 1) as usize,
         _ => rng.range(0, 5),
     }
 }
